@@ -3,6 +3,18 @@
 import json
 
 ARMED = {
+ "C03": ("AST gob writer/reader sequence comparison; save-after-store must-pass-through with caller-chain lifting over the call graph; log writer/replay registry agreement; at-most-once path search for accumulating records",
+         "Static decision of necessary conditions of 'a restart changes nothing observable': every GobEncode/GobDecode pair agrees on the ordered types and fields (R3.1); every change of a persisted field of repoT/nodeT/dagT/datastore.Data is followed by the repo save on every success exit of the function or of every caller chain (R3.3); every live mapping change is logged with a record type the replay applies, every replayed type has a live writer, accumulating record types are logged once per operation and each version's log is replayed under that version (R3.5); rebuild hooks are implemented and invoked (R3.6); id/label/mutation-id counters are persisted after every change (R3.7). Level 'other': equality of rebuilt state with live state for every history is value-level and not decided.",
+         "Trusts encoding/gob, go/ssa, VTA; RPC-only repo surgery (push/flatten/limit) is outside the claim (exceptions table).",
+         "DESIGN.md §2 C03"),
+ "C04": ("typestate path search (header→payload→Sync under lock); linear-form guarded-slice analysis of log readers; order-of-persistence path search; SCCP tolerance check of the loader",
+         "Static decision of necessary conditions of 'a crash at any write point is recoverable': log appends write header, payload and Sync in order under the file lock before acknowledging (R4.1); every slice of a log file's contents in the readers is dominated by a comparison bounding it by the bytes present (R4.2); the repo-id map is persisted before any repo blob that needs it and the loader tolerates absent map keys (R4.3); versioned put/delete pair data and tombstone operations in one transaction (R4.4). Level 'other': prefix-closure of every multi-key operation against the loader and Badger's own durability are not decided.",
+         "Trusts go/ssa; integer overflow is not modelled in the bounds analysis; os.File/Badger semantics.",
+         "DESIGN.md §2 C04"),
+ "C12": ("store→persist must-pass-through, must-hold lock dataflow, linear-form check of the stride comparison, provenance of load-time corrections",
+         "Static decision of necessary conditions of 'server-issued identifiers are unique and only move forward': every increment of the repo/version/instance id counters is under idMutex and persisted afterwards (R12.1); every store to the label counters is under mlMu and followed by its persist call (R12.2); mutation-id initialisation persists current+stride, allocation is under mutMu, renews the reservation whenever the advanced counter reaches the persisted bound (≥) and writes the new bound before returning (R12.3); load-time corrections raise the version counter above all known ids and the repo-wide max label to the largest per-version max (R12.5). Level 'other': schedule×crash interleavings of background max-label updates are not decided.",
+         "Trusts go/ssa; lock identity by field name; load/copy constructors are exceptions with reasons.",
+         "DESIGN.md §2 C12"),
  "C01": ("SSA must-pass-through on feasible paths (SCCP under ctx.Versioned()), provenance of keys/versions, structural truth tables of the ancestry resolver",
          "Static decision, for every path, of necessary conditions of 'versioned reads resolve to the nearest ancestor write': every versioned Get/Exists and range scan of each ordered back end returns only what GetBestKeyVersion/VersionedKeyValue selected at the context's own version (R1.1); versioned Put/Delete and their batch forms pair the data-key operation with the same-version tombstone operation in one transaction (R1.2); the dispatcher pins unversioned instances to the repo root and versioned ones to the request uuid's version (R1.3); tombstone/data markers agree between constructors and IsTombstone (R1.4); the resolver never returns a tombstoned or superseded entry, marks ancestors before returning a found value, keeps walking above live entries, and fails on two live candidates (R1.6). Level 'other': the resolver's answer on every DAG shape (value-level) is not decided.",
          "Trusts go/ssa; Badger transaction atomicity; only back ends compiled in the analysed tag sets.",
